@@ -20,7 +20,7 @@ impl World for StrWorld {
         interp::OP_NAMES
     }
     fn props() -> &'static [&'static str] {
-        &["C09", "C16"]
+        &["C09", "C15", "C16"]
     }
     fn generate(prop: &str, run_seed: u64, index: u64, tier: Tier) -> Trace {
         generate::generate(prop, run_seed, index, tier)
